@@ -17,6 +17,9 @@ Judge(k) ==
   /\ (ln(k).args.fam = "key") =>
        /\ Report(k, "C19.KeyInjective", ln(k).injective)
        /\ Report(k, "C19.KeyParseBack", ln(k).parseback)
+  /\ (ln(k).args.fam = "cons") =>
+       /\ Report(k, "C19.ConsKeyParseBack", ln(k).parseback)
+       /\ Report(k, "C19.NoPanic", ln(k).res # "panic")
 C_Loss(k) == (ln(k).args.fam = "obj") => (ln(k).decenc = LossFree(ln(k).args) \/ PrintT(<<"DRIFT", k, "lossfree">>))
 TInit == l = 0
 TNext == l < Len(Trace) /\ l' = l + 1 /\ Judge(l + 1) /\ C_Loss(l + 1)
